@@ -832,10 +832,15 @@ class RoutineGen:
                 self.model.next_branch()
                 self.model.close(False)
                 self.end_stmt(acc)
+                acc['pure_if'] = True
                 self.features.add('inline_if')
                 return True
+        # "pure" IF: only scalar assignments in the branches (read_after_write_vars handles these exactly)
+        pure = rng.random() < 0.3
+        branches = []
         self.emit(ind, f'if ({cond}) then')
-        self.block(ind + 1, [], depth + 1, rng.randint(1, 3))
+        branches.append([])
+        self.block(ind + 1, branches[-1], depth + 1, rng.randint(1, 3), only_scalar=pure)
         self.model.next_branch()
         nelif = rng.choice([0, 0, 1, 2]) if depth < 2 else 0
         # else-if chains are nested Conditionals in the IR: else_body = (Conditional,)
@@ -845,13 +850,15 @@ class RoutineGen:
             opened += 1
             c2 = self.expr('logical', 1, hdr=True)
             self.emit(ind, f'else if ({c2}) then')
-            self.block(ind + 1, [], depth + 1, rng.randint(1, 2))
+            branches.append([])
+            self.block(ind + 1, branches[-1], depth + 1, rng.randint(1, 2), only_scalar=pure)
             self.model.next_branch()
             self.features.add('elseif')
         has_else = rng.random() < 0.5
         if has_else:
             self.emit(ind, 'else')
-            self.block(ind + 1, [], depth + 1, rng.randint(1, 2))
+            branches.append([])
+            self.block(ind + 1, branches[-1], depth + 1, rng.randint(1, 2), only_scalar=pure)
             self.model.next_branch()
             self.features.add('else')
         self.emit(ind, 'end if')
@@ -862,6 +869,9 @@ class RoutineGen:
             self.model.next_branch()
         _, added = self.model.close(has_else)
         self.end_stmt(acc, added)
+        acc['pure_if'] = all(st['kind'] == 'assign' for b in branches for st in b)
+        if acc['pure_if']:
+            self.features.add('pure_if')
         self.features.add('if')
         return True
 
@@ -1234,7 +1244,7 @@ class RoutineGen:
         return True
 
     # -- blocks -----------------------------------------------------------------
-    def block(self, ind, block, depth, nstmts, in_loop=None):
+    def block(self, ind, block, depth, nstmts, in_loop=None, only_scalar=False):
         """generate nstmts statements; returns names of arrays filled element-wise by a(<loopvar>) = ..."""
         rng = self.rng
         fills = []
@@ -1254,6 +1264,8 @@ class RoutineGen:
             if self.hz.get('memq'):
                 kinds += ['memq'] * 2
             k = rng.choice(kinds)
+            if only_scalar:
+                k = 'scalar'
             if in_loop and k == 'elem' and rng.random() < 0.5:
                 ok = self.stmt_fill(ind, block, in_loop, fills)
             elif k == 'scalar':
